@@ -1,10 +1,10 @@
 \* trace validation of graceful-stop scenarios (harness/src/c10_stop.rs): WebSocket connections 1 and 2 with calls {1,2} and {3,4},
-\* HTTP connection 3 with call 5
+\* HTTP connection 3 with call 5; call 6 is a third call on connection 1 (back-pressure scenario)
 CONSTANTS
   Conns <- Cn3
   KindOf <- K3
-  Calls <- Q5
-  ConnOfCall <- CO5
+  Calls <- Q6
+  ConnOfCall <- CO6
   Limits = {10}
   MaxDepth = 0
   EmitCases = FALSE
